@@ -50,7 +50,7 @@ class C03(Prop):
         return {"Db": {"D1", "D2"}, "Sc": {"S1", "S2"}, "Conn": {"c1", "c2"}}
 
     def model_checks(self, tier):
-        c = dict(self.consts(tier), Devs=set(), Depth=30, MaxFails=99)
+        c = dict(self.consts(tier), Devs=set(), Depth=30, MaxFails=99, SampleOneIn=1)
         out = [dict(name="mc_ideal", consts=c, invariants=["StepInv"], constraint="Bound", view="ViewSt")]
         for d in ("C03.usedb_keeps_reported_schema", "C03.current_functions_engine_defaults"):
             out.append(dict(name="mc_" + d.split(".")[1], consts=dict(c, Devs={d}, Conn={"c1"}, Depth=6),
@@ -59,20 +59,20 @@ class C03(Prop):
 
     def generations(self, tier, seed):
         big = tier == "thorough"
-        base = dict(self.consts(tier), Devs=set(), MaxFails=2)
+        base = dict(self.consts(tier), Devs=set(), MaxFails=2, SampleOneIn=1)
         return [
             # one connection: every transition of the full graph
-            dict(name="edges1", mode="edges", sample=None if big else 2500, consts=dict(base, Conn={"c1"}, MaxFails=99, Depth=12)),
+            dict(name="edges1", mode="edges", sample=None if big else 2500, consts=dict(base, Conn={"c1"}, MaxFails=99, SampleOneIn=1, Depth=12)),
             # two connections: seeded subset of the 500k transitions (thorough: a much larger subset)
-            dict(name="edges2", mode="edges", sample=40000 if big else 2500, consts=dict(base, Db={"D1", "D2"}, Sc={"S1"}, MaxFails=99, Depth=10)),
+            dict(name="edges2", mode="edges", sample=40000 if big else 2500, consts=dict(base, Db={"D1", "D2"}, Sc={"S1"}, MaxFails=99, SampleOneIn=1, Depth=10)),
             # bounded path cover over a tiny vocabulary (repeated statements with USE / DROP in between)
             dict(name="paths", mode="paths", sample=None if big else 2500,
-                 consts=dict(base, Db={"D1"}, Sc={"S1"}, Conn={"c1"}, MaxFails=1, Depth=6 if big else 5)),
+                 consts=dict(base, Db={"D1"}, Sc={"S1"}, Conn={"c1"}, MaxFails=1, SampleOneIn=1, Depth=6 if big else 5)),
             # many repeats of the same few statements on one connection (statement caches, stale context)
             dict(name="walks_small", mode="walks", depth=14, num=3000 if big else 600, seed_offset=4,
-                 consts=dict(base, Db={"D1", "D2"}, Sc={"S1"}, Conn={"c1"}, MaxFails=2, Depth=14)),
+                 consts=dict(base, Db={"D1", "D2"}, Sc={"S1"}, Conn={"c1"}, MaxFails=2, SampleOneIn=1, Depth=14)),
             dict(name="walks", mode="walks", depth=12, num=4000 if big else 700, consts=dict(base, Depth=12)),
-        ] + ([dict(name="walks_long", mode="walks", depth=30, num=1500, seed_offset=9, consts=dict(base, MaxFails=4, Depth=30))] if big else [])
+        ] + ([dict(name="walks_long", mode="walks", depth=30, num=1500, seed_offset=9, consts=dict(base, MaxFails=4, SampleOneIn=1, Depth=30))] if big else [])
 
     def nontrivial(self, ops):
         return sum(1 for o in ops if o["k"] in ("usedb", "usesc", "dropsc")) >= 1 and any(o["k"] in ("probe", "ins", "createt") for o in ops)
